@@ -361,7 +361,7 @@ def _compare(node, env):
     parts = []
     for op, right_node in zip(node.ops, node.comparators):
         if isinstance(op, (ast.In, ast.NotIn)):
-            r = contains(env, left, right_node)
+            r = contains(env, left, right_node, negated=isinstance(op, ast.NotIn))
             parts.append(r if isinstance(op, ast.In) else cond(z3.Not(r.t), r.n))
             right = None
         else:
@@ -378,7 +378,7 @@ def _compare(node, env):
     return cond(r.t, r.n)
 
 
-def contains(env, item, container_node):
+def contains(env, item, container_node, negated=False):
     """item in container"""
     if isinstance(container_node, (ast.Tuple, ast.List, ast.Set)):
         vals = [(TRUE, ev(x, env)) for x in container_node.elts]
@@ -405,6 +405,11 @@ def contains(env, item, container_node):
         if not all(isinstance(x, SV) for x in comps): raise Unmodelled('tuple membership over non-scalars')
         env.region('null-element-in-subquery-membership', z3.Or([x.n if x.sort != 'null' else TRUE for x in comps]))
         hits = []
+        if not negated:
+            # `(a, b) in S` can still end up under a `not (...)`: pony adds its IS NOT NULL filters only for the `not in` spelling, so
+            # elements with a None component belong to the recorded region for the `in` spelling (same as for scalar items)
+            env.region('null-element-in-subquery-membership',
+                       z3.Or([z3.And(g, z3.Or([as_data(e_).n for e_ in v.items if isinstance(as_data(e_), SV)])) for g, v in vals if isinstance(v, PyTuple)] or [FALSE]))
         for g, v in vals:
             if not isinstance(v, PyTuple) or len(v.items) != len(comps): raise Unmodelled('tuple membership: element shape')
             parts = []
